@@ -548,7 +548,15 @@ static void do_mt(void) {
 	for (i = 0; i < 2; i++) VH_TRY(err[1 + i], mpc_mt_lcl(DD[i], EE[i], XS[i], YS[i], SQ, TRI[i]));
 	for (i = 0; i < 2; i++) { bn_copy(DL[i], DD[i]); bn_copy(EL[i], EE[i]); }
 	VH_TRY(err[3], mpc_mt_bct(DD, EE, SQ));
-	for (i = 0; i < 2; i++) VH_TRY(err[4 + i], mpc_mt_mul(RR[i], DD[i], EE[i], SQ, TRI[i], i));
+	{
+		/* optional 6th token: 0 result in an object of its own, 1 result over the opened d, 2 result over the opened e */
+		int al = vh_ntok > 5 ? atoi(vh_tok[5]) : 0;
+		for (i = 0; i < 2; i++) {
+			if (al == 1) { bn_copy(RR[i], DD[i]); VH_TRY(err[4 + i], mpc_mt_mul(RR[i], RR[i], EE[i], SQ, TRI[i], i)); }
+			else if (al == 2) { bn_copy(RR[i], EE[i]); VH_TRY(err[4 + i], mpc_mt_mul(RR[i], DD[i], RR[i], SQ, TRI[i], i)); }
+			else VH_TRY(err[4 + i], mpc_mt_mul(RR[i], DD[i], EE[i], SQ, TRI[i], i));
+		}
+	}
 	vh_begin("mt");
 	vh_bn("q", SQ); vh_bn("x", T0); vh_bn("y", T1);
 	bn_arr("xs", XS, 2); bn_arr("ys", YS, 2);
